@@ -18,7 +18,7 @@ CLAIMED = {
         "note": "Trusts: shipped data files as reference; grid.angular degree tables as constants; NumPy/SciPy/zipfile; pre-emption only at Python line "
         "boundaries in angular.py/coulomb.py/atomgrid.py. Determinism of the simulator is self-tested on every run (same seed twice, "
         "two worker counts, fresh interpreter under another PYTHONHASHSEED).",
-        "quick_timeout": 900,
+        "quick_timeout": 1800,
         "thorough_timeout": 14400,
     },
     "C10": {
@@ -32,7 +32,7 @@ CLAIMED = {
         "design_ref": "DESIGN.md section 3 (C10)",
         "note": "Trusts NumPy and brute-force distance arithmetic; boundary ties within 1e-9*max(1,r) of the radius are don't-care (except exact zero distance); "
         "the input space of centres/radii/index kinds is only covered as far as the histories generate it.",
-        "quick_timeout": 900,
+        "quick_timeout": 1800,
         "thorough_timeout": 14400,
     },
     "C20": {
@@ -47,7 +47,7 @@ CLAIMED = {
         "design_ref": "DESIGN.md section 3 (C20)",
         "note": "Trusts the byte snapshots (sha256) and the finite catalogue in engines/catalogue.py (about 40 entry groups incl. object lifecycles and operations that raise by design) as the meaning of 'public operations'; result equivalence to relative 1e-7; "
         "transient container mutations that are undone before return are allowed (probe only).",
-        "quick_timeout": 1200,
+        "quick_timeout": 2400,
         "thorough_timeout": 21600,
     },
     "C15": {
@@ -64,7 +64,7 @@ CLAIMED = {
         "a 'did not converge' error is retried at a 100x / 10^4 x looser tolerance before it counts; IVP solves run in the same histories with a loose envelope but the IVP clauses are not claimed as decided. "
         "Beyond the RNG seam the histories also share the caller's input objects between solves, solve through up to three admissible maps, steer object-address reuse, hold and re-evaluate returned solution callables, "
         "use re-entrant callbacks and scale the equation by constants (all added after independently produced breakages were missed, DESIGN.md section 10).",
-        "quick_timeout": 900,
+        "quick_timeout": 1800,
         "thorough_timeout": 14400,
     },
     "C16": {
@@ -81,7 +81,7 @@ CLAIMED = {
         "Multi-centre molecular grids (2-3 atoms, each with its own radial size, degree and rotation; densities on the nuclei; the atoms also listed in the opposite order) are a separate submode: accuracy 2e-2 (seen 3.3e-3), "
         "exact core of the summed core models 1e-7 (seen 2e-10). Off-centre densities on an atomic grid are outside the sampled envelope; one-atom molecular grids, solver options (boundary / include_origin / remove_large_pts), p-type components along x/y/z/generic "
         "directions, caller-edited parameter arrays and held potential functions are inside it.",
-        "quick_timeout": 1200,
+        "quick_timeout": 2400,
         "thorough_timeout": 21600,
     },
 }
